@@ -14,6 +14,21 @@ SEQ = ("Operation-level model: every public operation (publish, connect incl. hi
 REGION = ("Region-level model (lean/Mercure/Model/Sys.lean): threads with program counters over the synchronisation operations of LocalSubscriber / BoltTransport / LocalTransport, any number of threads, every schedule. Tied to /repo by (a) six variant flags regenerated from the sources on every run (obligation: all repaired) and (b) the controlled-schedule correspondence: the three files holding the hub's synchronisation are rewritten (go/ast, build overlay) to yield before every lock / atomic / channel / Once / bbolt / subscriber-list operation, exactly one goroutine runs at a time following a generated schedule, and the model — as acceptor — must predict every next label, blocked-or-not, return value and the final state. ")
 
 CLAIMED = {
+ "C06": dict(
+   text="Theorems: (operation level) the stored history is exactly the sequence of accepted updates — one total order — after any history; everything on a stream was enqueued for that connection; (obligation against regenerated flags) on both transports the whole fan-out of an update runs under the exclusive transport lock. The region-level stream theorems (FIFO; enq is a gap-free prefix of the filtered accepted order under every schedule, equal to it at quiescence; local transport: exactly the matching updates that entered fan-out after registration) are stated in lean/Mercure/Lemmas/SysStream.lean; those proved so far are listed in DESIGN.md §15, the others are covered by the controlled-schedule correspondence with oracles 'no duplicate / contiguous run of the history / nothing missed by a connected subscriber at quiescence' on the implementation alone.",
+   note=TB + REGION + "PARTIAL where DESIGN.md §15 says so (region-level exactly-once/order invariant).",
+   technique="Lean 4 proof (history invariant; region-level invariants in progress) + regenerated-flag obligation + controlled-schedule acceptor correspondence",
+   design="§8 C06, §15"),
+ "C07": dict(
+   text="Theorems: a reconnection with the id of a retained update replays exactly the accepted updates that follow it (any retention size and cleanup coin sequence, unique ids); 'earliest' replays the whole retained history; a restart keeps the stored history; obligation against regenerated flags: the history scan stops before an entry stored after the registration and the sequence is reloaded on open; witness theorems: the duplicate [u2,u2] on the code as found (F2/F3) and the same schedule giving [u2] on the repaired code. Region-level 'gap-free prefix of the ideal sequence under every schedule' (bolt_stream_prefix_of_ideal / bolt_stream_complete): see DESIGN.md §15 for what is proved; otherwise covered by junction-targeting controlled schedules (publish placed between registration, history scan and go-live, with/without restart, buffers of 2-3 and 1000) with oracles on the implementation alone.",
+   note=TB + REGION + "PARTIAL where DESIGN.md §15 says so (region-level junction invariant).",
+   technique="Lean 4 proof (negotiation + retention by induction; witnesses by kernel evaluation) + regenerated-flag obligation + controlled-schedule acceptor correspondence",
+   design="§8 C07, §15"),
+ "C09": dict(
+   text="Theorems over every schedule of the region-level model (Bolt): whatever was handed to a subscriber had been persisted before; a Dispatch that returned without error had persisted its update; the store is the accepted sequence minus a discarded prefix with every update at the position it was given (positions never change); nothing is lost without retention, the last `size` are stored with it; a crash in ANY state followed by a restart keeps the committed store, its sequence and positions, reports the last stored id and reloads the sequence. Tie: the instrumented transport in a child process SIGKILLs itself at every synchronisation point inside and around every publish (retention on/off); the parent reopens the file (bbolt and NewBoltTransport) and compares with the model's crash+restart; oracles on the file alone.",
+   note=TB + REGION + "PARTIAL: atomicity/durability of one bbolt transaction and 'the file always reopens' are assumptions (the model's db.Update is one step), exercised by the kill runs, not proved; kill points inside bbolt's commit are not reached.",
+   technique="Lean 4 proof (inductive invariant over all schedules) + kill-point enumeration correspondence",
+   design="§8 C09"),
  "C13": dict(
    text="Theorems over every schedule: parked before a channel send a publisher always moves (the send succeeds or overflows at once); a thread only ever waits for a lock held by another thread, for open read transactions or for a running Once — never for a subscriber's buffer; and at quiescence a subscriber is flagged disconnected exactly when its stream has been ended (overflow live, during replay or while queued before go-live; client; hub) — cut off, not starved (witness theorem for the code as found: flagged but never closed, F6). Tie: hub histories around the buffer capacity (999..1003 pending, stalled writer, replays larger than the buffer) under synctest, and controlled schedules with capacity 1-3.",
    note=TB + REGION + "PARTIAL: 'bounded time' is proved as 'never waits for a consumer'; wall-clock bounds belong to the runtime. In the instrumented build the channel capacity is overridable (the only semantic difference from /repo).",
